@@ -713,6 +713,9 @@ impl Default for Heap {
   }
 }
 
+#[cfg(samlang_verif)]
+pub mod verif_hooks;
+
 #[cfg(test)]
 mod tests {
   use super::{
